@@ -1,6 +1,8 @@
 (* C20 — comments reach docstrings intact; whitespace clean-up never changes code meaning.
    Only statements, closed by [exact], each followed by Print Assumptions. *)
-From GV Require Import Base.Str Gen.C20Lit Model.FixWs Proofs.RxLemmas Proofs.FixWs Proofs.FixWsRuns Proofs.FixWsIdem Proofs.C20Pins.
+From GV Require Import Base.Str Gen.C20Lit Model.FixWs Model.Wrap Proofs.RxLemmas Proofs.FixWs Proofs.FixWsRuns Proofs.FixWsIdem Proofs.C20Pins
+  Proofs.Words Proofs.TwWrap Proofs.Wrap Proofs.WrapWidth.
+Local Open Scope nat_scope.
 
 (* ---- T0: the regex literals of formatter.py / lines.py / rst.py are the ones the models were written against ---- *)
 Theorem C20_pin_fix_whitespace_regexes : fw_subs =
@@ -53,3 +55,99 @@ Example C20_fixws_example :
   = sx [120;10;10;10;100;101;102;32;102;58;10;10;32;32;32;32;112;10]%N.
 Proof. vm_compute. reflexivity. Qed.
 Print Assumptions C20_fixws_example.
+
+(* ---- T0 for wrap / rst ---- *)
+Theorem C20_pin_wrap_literals :
+  numbered_list_regex = "^\d+\. " /\ wrap_subs = [ (":\n([^\n])", ":\n\n\1") ] /\
+  wrap_tw_wrap_kwargs = [("break_long_words", "False"); ("break_on_hyphens", "False"); ("width", "width - offset")] /\
+  wrap_numbers = ["0"; "0.75"; "1"] /\ rst_search_re = "[|*`_[\]]" /\
+  rst_wrap_kwargs = [("indent", "indent"); ("offset", "indent + 3"); ("width", "width - indent")].
+Proof.
+  split; [exact pin_numbered_list_regex|]. split; [exact pin_wrap_subs|].
+  split; [exact (proj1 pin_wrap_textwrap_calls)|]. split; [exact (proj2 (proj2 pin_wrap_textwrap_calls))|]. exact pin_rst.
+Qed.
+Print Assumptions C20_pin_wrap_literals.
+
+Theorem C20_pin_wrap_fill_call : wrap_tw_fill_kwargs =
+  [("break_long_words", "False"); ("break_on_hyphens", "False"); ("initial_indent", "' ' * indent");
+   ("subsequent_indent", "' ' * indent + ' ' * get_subsequent_line_indentation_level(token.strip())");
+   ("text", "token"); ("width", "width")].
+Proof. exact (proj1 (proj2 pin_wrap_textwrap_calls)). Qed.
+Print Assumptions C20_pin_wrap_fill_call.
+
+(* ---- textwrap as lines.py uses it (fill_words_preserved / fill_width_bound of DESIGN 6.20), for every text ---- *)
+(* the words (str.split()) of the wrapped lines are the words of the text, in order, when the indents are blanks *)
+Theorem C20_textwrap_words_preserved : forall W ii si text out,
+  sall is_pyspace ii = true -> sall is_pyspace si = true ->
+  tw_wrap W ii si text = Some (Some out) -> pywords (sjoin nl1 out) = pywords text.
+Proof. exact tw_wrap_words_preserved. Qed.
+Print Assumptions C20_textwrap_words_preserved.
+
+(* every line respects the width, or is the indentation followed by one single chunk of the text *)
+Theorem C20_textwrap_width_bound : forall W ii si text out,
+  tw_wrap W ii si text = Some (Some out) ->
+  forall line, In line out ->
+    String.length line <= W \/
+    exists c, In c (split_chunks (munge text)) /\ (line = (ii ++ c)%string \/ line = (si ++ c)%string).
+Proof. exact tw_wrap_width_bound. Qed.
+Print Assumptions C20_textwrap_width_bound.
+
+(* such a chunk is blank or contains no whitespace at all: it is an unbreakable word *)
+Theorem C20_textwrap_chunk_unbreakable : forall text c, In c (split_chunks (munge text)) ->
+  (c <> ""%string /\ sall is_pyspace c = true) \/ (c <> ""%string /\ sall (fun x => negb (is_twspace x)) c = true).
+Proof. exact chunk_unbreakable. Qed.
+Print Assumptions C20_textwrap_chunk_unbreakable.
+
+(* the loop of the model never runs out of its fuel *)
+Theorem C20_textwrap_total : forall W ii si text, tw_wrap W ii si text <> Some None.
+Proof. exact tw_wrap_total. Qed.
+Print Assumptions C20_textwrap_total.
+
+Theorem C20_wrap_total : forall text width offset indent, wrap text width offset indent <> OutOfFuel.
+Proof. exact wrap_total. Qed.
+Print Assumptions C20_wrap_total.
+
+(* ---- gapic.utils.lines.wrap ---- *)
+(* PARTIAL (words): everything after the first-line slice is re-flowed without loss, duplication or reordering, for every
+   input; missing: words(first) ++ words(slice) = words(text), false in general (the three _refuted lemmas) *)
+Theorem C20_wrap_words_preserved_partial : forall text width offset indent out,
+  text <> ""%string -> wrap text width offset indent = Ok out ->
+  exists first text2, wrap_head (repl_nlsp text) width offset = (Ok first, text2) /\
+    pywords out = (pywords first ++ pywords (sdrop (String.length first) (colon_sub text2)))%list.
+Proof. exact wrap_words_preserved_partial. Qed.
+Print Assumptions C20_wrap_words_preserved_partial.
+
+(* PARTIAL (width): the bound holds for the first line and for every line of every filled token the result is joined from *)
+Theorem C20_wrap_width_bound_partial : forall text width offset indent out,
+  text <> ""%string -> wrap text width offset indent = Ok out ->
+  exists first text2, wrap_head (repl_nlsp text) width offset = (Ok first, text2) /\
+    first_ok (repl_nlsp text) width offset first /\
+    (out = strip first \/
+     exists parts, out = rstrip_nl (first ++ sjoin nl1 parts) /\ Forall (part_ok width indent) parts).
+Proof. exact wrap_width_bound_partial. Qed.
+Print Assumptions C20_wrap_width_bound_partial.
+
+Theorem C20_wrap_tab_refuted : exists text width offset indent out,
+  offset < width /\ wrap text width offset indent = Ok out /\ pywords out <> pywords text.
+Proof. exact wrap_tab_refuted. Qed.
+Print Assumptions C20_wrap_tab_refuted.
+
+Theorem C20_wrap_leading_ws_refuted : exists text width offset indent out,
+  offset < width /\ contains tab text = false /\ wrap text width offset indent = Ok out /\ pywords out <> pywords text.
+Proof. exact wrap_leading_ws_refuted. Qed.
+Print Assumptions C20_wrap_leading_ws_refuted.
+
+Theorem C20_wrap_blank_first_line_refuted : exists text width offset indent,
+  offset < width /\ wrap text width offset indent = IndexErr.
+Proof. exact wrap_blank_first_line_refuted. Qed.
+Print Assumptions C20_wrap_blank_first_line_refuted.
+
+(* non-vacuity: an ordinary comment, its wrapped form, and the three witnesses lying outside first_line_safe *)
+Example C20_wrap_example :
+  first_line_safe t_tab 12 0 = false /\ first_line_safe "  ab cd" 3 0 = false /\ first_line_safe "    " 3 0 = false /\
+  first_line_safe "The quick brown fox jumps over the lazy dog. The quick brown fox" 40 7 = true /\
+  wrap "The quick brown fox jumps over the lazy dog. The quick brown fox" 40 7 4 =
+    Ok (sx [84;104;101;32;113;117;105;99;107;32;98;114;111;119;110;32;102;111;120;32;106;117;109;112;115;32;111;118;101;114;10;
+            32;32;32;32;116;104;101;32;108;97;122;121;32;100;111;103;46;32;84;104;101;32;113;117;105;99;107;32;98;114;111;119;110;32;102;111;120]%N).
+Proof. exact first_line_safe_examples. Qed.
+Print Assumptions C20_wrap_example.
